@@ -9,10 +9,10 @@ import (
 )
 
 // Term keys (all comparable).
-type lenKey struct{ v ssa.Value }       // len of a slice/string SSA value
-type fvKey struct{ fv *ssa.FreeVar }     // value held in an immutable closure cell
-type cellPre struct{ call *ssa.Call }    // content of the pointer-arg cell just before call
-type inlKey struct {                      // callee-internal term instantiated at a call site
+type lenKey struct{ v ssa.Value }     // len of a slice/string SSA value
+type fvKey struct{ fv *ssa.FreeVar }  // value held in an immutable closure cell
+type cellPre struct{ call *ssa.Call } // content of the pointer-arg cell just before call
+type inlKey struct {                  // callee-internal term instantiated at a call site
 	call *ssa.Call
 	t    interface{}
 }
@@ -143,7 +143,7 @@ func unsat(cs []Lin) bool {
 			for _, n := range negs {
 				kp, kn := p.m[best], -n.m[best]
 				g := gcd(kp, kn)
-				r := p.scale(kn / g).add(n, kp/g)
+				r := p.scale(kn/g).add(n, kp/g)
 				rest = append(rest, r)
 			}
 		}
